@@ -280,6 +280,7 @@ class AdminTwin(c14.ServerModel):
         tw.ncb = 0
         tw.outstanding = {}
         tw.emitted = {}
+        tw.groupcb = 0
         self.compare(tw, 'initial')
         return tw
 
